@@ -146,6 +146,15 @@ theorem tail_with_error_delivered (P : Prims) (ks) (hL : P.sxor.Law ks) (a b : C
     rw [hq, w1, hk, xorAt_xorAt]
   rw [h4, xorAt_append, h3, r1]
 
+/-- **A timeout that consumed nothing changes nothing.** A `Read` that finds nothing on the wire
+(and so ends in a read-deadline timeout) produces no new state: no keystream is consumed, the
+connection behaves afterwards exactly as if the call had not been made — the stream theorems apply
+unchanged to the reads that follow (an implementation that latches the timeout does not refine
+this). -/
+theorem timeout_consumes_nothing (P : Prims) (c : Conn) (max : Nat) :
+    O4.Obfs2.read P c max [] = none := by
+  simp [O4.Obfs2.read, Net.read]
+
 /-- the wire carries exactly as many bytes as were written (no framing, no expansion) -/
 theorem wire_length (P : Prims) (ks) (hL : P.sxor.Law ks) (a : Conn) (ws : List Bytes) :
     (writeAll P a ws).2.flatten.length = ws.flatten.length := by
